@@ -5,7 +5,7 @@
    byte strings, the transcription and the typed-path model give the same answer. *)
 From Coq Require Import List NArith Bool.
 Import ListNotations.
-From TP Require Import Core Path Unix StdUnix Spec UnixProofs StdProofs.
+From TP Require Import Core Path Unix StdUnix Spec UnixProofs StdProofs StdParentBytes.
 
 (* components from the front and from the back: the specification list, resp. its reverse *)
 Theorem C06_std_components : forall l : list N, s_components l = ucomps l.
@@ -69,9 +69,17 @@ Print Assumptions C06_ends_with.
 Print Assumptions C06_parent.
 Print Assumptions C06_ancestors.
 Print Assumptions C06_strip_prefix.
-(* C06_parent_bytes_partial: byte-identity of the two parents (both are leading slices with the same
-   components; that they have the same length is not proved) is decided on every explored case by
-   pair.c06 against the real std::path. *)
+(* "with returned sub-paths identical byte for byte": the parent std returns and the parent the model of
+   typed-path returns are the same byte string (both absent, or equal), and so are the ancestors, one by
+   one.  (This was C06_parent_bytes_partial until StdParentBytes.v: std's next_back + as_path trimming
+   and the model's skip_back / "keep the leading root or ." formula are shown to compute the same
+   function.)  The strip_prefix remainder is the exception and a recorded finding (D8, class 6). *)
+Theorem C06_parent_bytes : forall l : list N, s_parent l = u_parent l.
+Proof. exact parent_bytes. Qed.
+Theorem C06_ancestors_bytes : forall l : list N, s_ancestors l = u_ancestors l.
+Proof. exact ancestors_bytes. Qed.
+Print Assumptions C06_parent_bytes.
+Print Assumptions C06_ancestors_bytes.
 
 Example C06_example :
   s_parent [47;97;47;47;98;47;46] = Some [47;97] /\ u_parent [47;97;47;47;98;47;46] = Some [47;97]
